@@ -283,7 +283,7 @@ class FStringNode:
 
 def _close_fstring_if_necessary(fstring_stack, string, line_nr, column, additional_prefix):
     for fstring_stack_index, node in enumerate(fstring_stack):
-        lstripped_string = string.lstrip()
+        lstripped_string = string.lstrip(' \f\t')
         len_lstrip = len(string) - len(lstripped_string)
         if lstripped_string.startswith(node.quote):
             token = PythonToken(
